@@ -2,6 +2,7 @@ import RV.C20.Props
 import RV.C20.TextProps
 import RV.C20.ValuesProps
 import RV.C20.ConnProps
+import RV.C20.ResultProps
 open RV.C20
 #print axioms remote_mirrors
 #print axioms deferred_visibility
@@ -22,3 +23,5 @@ open RV.C20
 #print axioms values_block_means_join
 #print axioms request_assembly_means_op
 #print axioms accept_names_result_format
+#print axioms result_decoding_exact
+#print axioms answer_comes_back
